@@ -9,9 +9,9 @@
   `threeSum` of Model.F64, the functions the driver runs against the compiled header) add the overflow
   decision and carry an explicit in-range guard.
 
-  Property theorems only; the proofs are in UVerifProofs/Lemmas/F64{Round,Eft,Lift}.lean.
+  Property theorems only; the proofs are in UVerifProofs/Lemmas/F64{Round,Eft,Lift,Split,Dekker,ProdLift,ProdAll}.lean.
 -/
-import UVerifProofs.Lemmas.F64ProdLift
+import UVerifProofs.Lemmas.F64ProdAll
 open UVerif UVerif.F64
 
 /-! ### rounding lemmas for RN -/
@@ -138,19 +138,19 @@ theorem C13_split_int (p s : Nat) (hp : 1 ≤ p) (hs : 1 ≤ s) (x : Int) (hx : 
   rw [rnInt_exact hp h1, rnInt_exact hp h2]
   ring
 
-/-- `split` of the model, main branch (`|a| ≤ SPLIT_THRESHOLD = max·2^-(BITS+1)`): `hi + lo = a` exactly, both
-    outputs representable; every format with `p ≥ 2`, subnormal `a` included.  (The multiplication by
-    `SPLITTER = 2^BITS + 1` is the model's `mul`, i.e. `rnShr` with `q` fraction bits.) -/
-theorem C13_split (f : Fmt) (ok : f.Ok) (a : F) (ha : a.Rep f) (hth : a.mag ≤ maxMag f >>> (splitBits f + 1)) :
-    (split f a).1.Rep f ∧ (split f a).2.Rep f ∧ (split f a).1.toInt + (split f a).2.toInt = a.toInt :=
-  split_spec f ok ha hth
-
-/-- the rescaled branch of `split` (`|a| > SPLIT_THRESHOLD`, `ldexp` by ∓(BITS+1)) — full statement, NOT proved
-    (covered by the correspondence stream: the generator aims at the threshold 2^996 and at the top binades). -/
-def C13_split_rescaled_full : Prop :=
-  ∀ (f : Fmt), f.Ok → ∀ (a : F), a.Rep f → maxMag f >>> (splitBits f + 1) < a.mag → 2 * a.mag ≤ maxMag f →
-    2 * splitBits f + 2 ≤ f.p →
-    (split f a).1.Rep f ∧ (split f a).2.Rep f ∧ (split f a).1.toInt + (split f a).2.toInt = a.toInt
+/-- **`split` of the model, BOTH branches** (`|a| ≤ SPLIT_THRESHOLD`, and the `ldexp`-rescaled branch above it):
+    for every representable `a` with `|a| < 2^(top−1)` (in particular `|a| ≤ max/2`), subnormal `a` included, in every
+    format with `p ≥ 2` and room for the rescaling (`p + 2(BITS+1) ≤ top`; binary64: 53 + 56 ≤ 2098):
+    both outputs are finite floats, they are the Veltkamp parts `vHi`, `vLo` of `a`, and `hi + lo = a` exactly. -/
+theorem C13_split (f : Fmt) (ok : f.Ok) (hfmt : f.p + 2 * (splitBits f + 1) ≤ f.top) (a : F) (ha : a.Rep f)
+    (hlt : a.mag < 2 ^ (f.top - 1)) :
+    (split f a).1.Rep f ∧ (split f a).2.Rep f ∧ (split f a).1.toInt + (split f a).2.toInt = a.toInt ∧
+    (split f a).1.toInt = vHi f.p (splitBits f) a.toInt ∧ (split f a).2.toInt = vLo f.p (splitBits f) a.toInt := by
+  have hp : 1 ≤ f.p := by have := ok.hp2; omega
+  have hsb : 1 ≤ splitBits f := by unfold splitBits; have := ok.hp2; omega
+  obtain ⟨h1, h2, h3, h4, _, _⟩ := split_val_all f ok hfmt ha hlt
+  refine ⟨h1, h2, ?_, h3, h4⟩
+  rw [h3, h4, vLo_eq hp hsb ha.2]; ring
 
 /-- bit-width half of Veltkamp's theorem for NORMAL floats of either sign (`2^(p−1+e) ≤ |x| < 2^(p+e)`, `s ≥ 1`,
     `s + 1 ≤ p`): `hi` is a multiple of `2^(e+s)` of magnitude at most `2^(p+e)` — it fits `p − s` bits — and `lo` is a
@@ -162,85 +162,73 @@ theorem C13_split_widths (p s e : Nat) (hs : 1 ≤ s) (hsp : s + 1 ≤ p) (x : I
     ((2 ^ e : Nat) : Int) ∣ vLo p s x ∧ (vLo p s x).natAbs ≤ 2 ^ (s - 1 + e) :=
   veltkamp_widths hs hsp hx hlo hhi
 
-/-- **Dekker's product** (`two_prod` without FMA: Veltkamp splits, four partial products, four additions) on the
-    integer model — scale free, so underflow does not enter; NORMAL operands; `s = ⌈p/2⌉`, `p ≥ s + 2` (p = 53, s = 27
-    for binary64).  `vHi`, `vLo`, `dekkerR` are the values as computed, every operation rounded:
-    `RN(a·b) + r = a·b` exactly. -/
-theorem C13_two_prod_int (p s ea eb : Nat) (hps1 : p ≤ 2 * s) (hps2 : 2 * s ≤ p + 1) (hs2 : s + 2 ≤ p) (hs : 1 ≤ s)
-    (a b : Int) (ha : IsFloat p a) (hb : IsFloat p b)
-    (ha5 : 2 ^ (p - 1 + ea) ≤ a.natAbs) (ha6 : a.natAbs < 2 ^ (p + ea))
-    (hb5 : 2 ^ (p - 1 + eb) ≤ b.natAbs) (hb6 : b.natAbs < 2 ^ (p + eb)) :
+/-! ### two_prod, two_sqr (Dekker's product with the Veltkamp split; no FMA macro is defined) -/
+
+/-- **Dekker's product on the integer model, ALL floats** (zero, subnormal, normal — the statement is scale free, so
+    underflow does not enter): `s = ⌈p/2⌉`, `p ≥ s + 2` (p = 53, s = 27 for binary64).  `vHi`, `vLo`, `dekkerR` are the
+    values as computed, every operation rounded:  `RN(a·b) + r = a·b` exactly. -/
+theorem C13_two_prod_int (p s : Nat) (hps1 : p ≤ 2 * s) (hps2 : 2 * s ≤ p + 1) (hs2 : s + 2 ≤ p) (hs : 1 ≤ s)
+    (a b : Int) (ha : IsFloat p a) (hb : IsFloat p b) :
     rnInt p (a * b) + dekkerR p s a b = a * b :=
-  dekker_two_prod_int hps1 hps2 hs2 hs ha hb ha5 ha6 hb5 hb6
+  dekker_two_prod_all hps1 hps2 hs2 hs ha hb
 
-/-- `two_sqr` on the integer model (normal operand). -/
-theorem C13_two_sqr_int (p s ea : Nat) (hps1 : p ≤ 2 * s) (hps2 : 2 * s ≤ p + 1) (hs2 : s + 2 ≤ p) (hs : 1 ≤ s)
-    (a : Int) (ha : IsFloat p a) (ha5 : 2 ^ (p - 1 + ea) ≤ a.natAbs) (ha6 : a.natAbs < 2 ^ (p + ea)) :
+/-- `two_sqr` on the integer model, all floats. -/
+theorem C13_two_sqr_int (p s : Nat) (hps1 : p ≤ 2 * s) (hps2 : 2 * s ≤ p + 1) (hs2 : s + 2 ≤ p) (hs : 1 ≤ s)
+    (a : Int) (ha : IsFloat p a) :
     rnInt p (a * a) + dekkerSqrR p s a = a * a :=
-  dekker_two_sqr_int hps1 hps2 hs2 hs ha ha5 ha6
+  dekker_two_sqr_all hps1 hps2 hs2 hs ha
 
-example : (53 ≤ 2 * 27 ∧ 2 * 27 ≤ 53 + 1 ∧ 27 + 2 ≤ 53) ∧ splitBits binary64 = 27 := by decide
+example : (53 ≤ 2 * 27 ∧ 2 * 27 ≤ 53 + 1 ∧ 27 + 2 ≤ 53) ∧ splitBits binary64 = 27 ∧
+    binary64.p + 2 * (splitBits binary64 + 1) ≤ binary64.top := by decide
 
-/-- **`two_prod` of the model** (the statement sequence of error_free_ops.hpp: `mul`, two `split`s, four partial
-    products, four additions over Model.F64) — every format with `p ≥ 4`; NORMAL operands with quanta `2^ea`, `2^eb`
-    units; no underflow (`q ≤ ea + eb`; for binary64 this is implied by `|a·b| ≥ 2^-968`, in particular by the property's
-    `2^-900`); both operands at most `SPLIT_THRESHOLD` (main branch of `split`); three binades of headroom below overflow
-    (implied by `|a·b| ≤ 2^1000`):
-      `p` and `r` are finite floats, `p = RN(a·b)` and `p + r = a·b` exactly (stated in integer units, times `2^q`). -/
-theorem C13_two_prod_partial (f : Fmt) (ok : f.Ok) (h4 : 4 ≤ f.p) (a b : F) (ha : a.Rep f) (hb : b.Rep f) (ea eb : Nat)
-    (ha5 : 2 ^ (f.p - 1 + ea) ≤ a.mag) (ha6 : a.mag < 2 ^ (f.p + ea))
-    (hb5 : 2 ^ (f.p - 1 + eb) ≤ b.mag) (hb6 : b.mag < 2 ^ (f.p + eb))
-    (hq : f.q ≤ ea + eb)
-    (htha : a.mag ≤ maxMag f >>> (splitBits f + 1)) (hthb : b.mag ≤ maxMag f >>> (splitBits f + 1))
-    (hrange : 8 * 2 ^ (f.p + ea + (f.p + eb)) ≤ maxMag f * 2 ^ f.q) :
+/-- **`two_prod` of the model** (the statement sequence of error_free_ops.hpp: `mul`, two `split`s — either branch —,
+    four partial products, four additions over Model.F64) for ALL representable operands: zero, subnormal or normal,
+    below or above SPLIT_THRESHOLD.  Guards:
+      * `|a|, |b| < 2^(top−1)`                      (the property's `|x| ≤ max/2`);
+      * no underflow: `q ≤ (size a − p) + (size b − p)` — the quanta of the operands multiply to at least one unit
+        (binary64: implied by `|a·b| ≥ 2^-968`, in particular by the property's `2^-900`);
+      * `8·2^(size a + size b) ≤ maxMag·2^q`       (binary64: implied by `|a·b| ≤ 2^1019`, in particular by `2^1000`);
+      * format: `p ≥ 4`, `p + 2(BITS+1) ≤ top`.
+    Then `p` and `r` are finite floats, `p = RN(a·b)` and `p + r = a·b` exactly (integer units, times `2^q`). -/
+theorem C13_two_prod (f : Fmt) (ok : f.Ok) (h4 : 4 ≤ f.p) (hfmt : f.p + 2 * (splitBits f + 1) ≤ f.top)
+    (a b : F) (ha : a.Rep f) (hb : b.Rep f)
+    (hla : a.mag < 2 ^ (f.top - 1)) (hlb : b.mag < 2 ^ (f.top - 1))
+    (hq : f.q ≤ (size a.mag - f.p) + (size b.mag - f.p))
+    (hrange : 8 * 2 ^ (size a.mag + size b.mag) ≤ maxMag f * 2 ^ f.q) :
     (twoProd f a b).1.Rep f ∧ (twoProd f a b).2.Rep f ∧
     ((twoProd f a b).1.toInt + (twoProd f a b).2.toInt) * ((2 ^ f.q : Nat) : Int) = a.toInt * b.toInt ∧
     (twoProd f a b).1.toInt * ((2 ^ f.q : Nat) : Int) = rnInt f.p (a.toInt * b.toInt) :=
-  twoProd_spec f ok h4 ha hb ha5 ha6 hb5 hb6 hq htha hthb hrange
+  twoProd_spec_all f ok h4 hfmt ha hb hla hlb hq hrange
 
-set_option exponentiation.threshold 5000 in
-set_option maxRecDepth 100000 in
-/-- the hypotheses of `C13_two_prod_partial` are satisfiable: binary64, a = 1 + 2^-52, b = 1.5 (ea = eb = 1022). -/
-example :
-    let a := ofBits64 0x3ff0000000000001
-    let b := ofBits64 0x3ff8000000000000
-    2 ^ (53 - 1 + 1022) ≤ a.mag ∧ a.mag < 2 ^ (53 + 1022) ∧ 2 ^ (53 - 1 + 1022) ≤ b.mag ∧ b.mag < 2 ^ (53 + 1022) ∧
-    binary64.q ≤ 1022 + 1022 ∧ a.mag ≤ maxMag binary64 >>> (splitBits binary64 + 1) ∧
-    b.mag ≤ maxMag binary64 >>> (splitBits binary64 + 1) ∧
-    8 * 2 ^ (53 + 1022 + (53 + 1022)) ≤ maxMag binary64 * 2 ^ binary64.q ∧ (twoProd binary64 a b).2.toInt ≠ 0 := by
-  decide
-
-/-- **`two_sqr` of the model** — same guards as `C13_two_prod_partial` with `b = a`. -/
-theorem C13_two_sqr_partial (f : Fmt) (ok : f.Ok) (h4 : 4 ≤ f.p) (a : F) (ha : a.Rep f) (ea : Nat)
-    (ha5 : 2 ^ (f.p - 1 + ea) ≤ a.mag) (ha6 : a.mag < 2 ^ (f.p + ea))
-    (hq : f.q ≤ ea + ea) (htha : a.mag ≤ maxMag f >>> (splitBits f + 1))
-    (hrange : 8 * 2 ^ (f.p + ea + (f.p + ea)) ≤ maxMag f * 2 ^ f.q) :
+/-- **`two_sqr` of the model**, all representable operands (one more binade of headroom for `2·hi`). -/
+theorem C13_two_sqr (f : Fmt) (ok : f.Ok) (h4 : 4 ≤ f.p) (hfmt : f.p + 2 * (splitBits f + 1) ≤ f.top)
+    (a : F) (ha : a.Rep f) (hla : a.mag < 2 ^ (f.top - 2))
+    (hq : f.q ≤ (size a.mag - f.p) + (size a.mag - f.p))
+    (hrange : 8 * 2 ^ (size a.mag + size a.mag) ≤ maxMag f * 2 ^ f.q) :
     (twoSqr f a).1.Rep f ∧ (twoSqr f a).2.Rep f ∧
     ((twoSqr f a).1.toInt + (twoSqr f a).2.toInt) * ((2 ^ f.q : Nat) : Int) = a.toInt * a.toInt ∧
     (twoSqr f a).1.toInt * ((2 ^ f.q : Nat) : Int) = rnInt f.p (a.toInt * a.toInt) :=
-  twoSqr_spec f ok h4 ha ha5 ha6 hq htha hrange
+  twoSqr_spec_all f ok h4 hfmt ha hla hq hrange
 
-/-- Dekker's product with the Veltkamp split (the code path of `two_prod`: no FMA macro is defined) — full
-    statement (subnormal operands and operands above SPLIT_THRESHOLD included), NOT proved; what is proved is
-    `C13_two_prod_partial` (normal operands, main branch of split) and the scale-free `C13_two_prod_int`.
-    The guard `q ≤ (size a − p) + (size b − p)` is the decidable no-underflow condition (the quanta of `a` and `b`
-    multiply to at least one unit; implied by `|a·b| ≥ 2^-900` for binary64). -/
-def C13_two_prod_full : Prop :=
-  ∀ (f : Fmt), f.Ok → ∀ (a b : F), a.Rep f → b.Rep f →
-    a.mag ≤ maxMag f >>> (splitBits f + 1) → b.mag ≤ maxMag f >>> (splitBits f + 1) →
-    f.q ≤ (size a.mag - f.p) + (size b.mag - f.p) →
-    (2 ^ splitBits f + 1) ^ 2 * (a.mag * b.mag) ≤ maxMag f * 2 ^ f.q →
-    (twoProd f a b).1.Rep f ∧ (twoProd f a b).2.Rep f ∧
-    ((twoProd f a b).1.toInt + (twoProd f a b).2.toInt) * (2 ^ f.q : Int) = a.toInt * b.toInt
-
-/-- `two_sqr` — full statement, NOT proved (proved: `C13_two_sqr_partial`, `C13_two_sqr_int`). -/
-def C13_two_sqr_full : Prop :=
-  ∀ (f : Fmt), f.Ok → ∀ (a : F), a.Rep f →
-    a.mag ≤ maxMag f >>> (splitBits f + 1) →
-    f.q ≤ 2 * (size a.mag - f.p) →
-    (2 ^ splitBits f + 1) ^ 2 * (a.mag * a.mag) ≤ maxMag f * 2 ^ f.q →
-    (twoSqr f a).1.Rep f ∧ (twoSqr f a).2.Rep f ∧
-    ((twoSqr f a).1.toInt + (twoSqr f a).2.toInt) * (2 ^ f.q : Int) = a.toInt * a.toInt
+set_option exponentiation.threshold 5000 in
+set_option maxRecDepth 100000 in
+/-- the hypotheses of `C13_two_prod` are satisfiable on instances that the earlier partial theorem excluded:
+    binary64, a SUBNORMAL `a = 3·2^-1074` times `b = 2^200·(1 + 2^-52)`, and an `a = 2^1000` ABOVE SPLIT_THRESHOLD
+    times `b = 1.5·2^-30`; both residuals are as the theorem says. -/
+example :
+    let a := ofBits64 0x0000000000000003
+    let b := ofBits64 0x4c70000000000001
+    let c := ofBits64 0x7e70000000000000
+    let d := ofBits64 0x3e18000000000001
+    a.mag < 2 ^ (binary64.top - 1) ∧ b.mag < 2 ^ (binary64.top - 1) ∧
+    binary64.q ≤ (size a.mag - 53) + (size b.mag - 53) ∧
+    8 * 2 ^ (size a.mag + size b.mag) ≤ maxMag binary64 * 2 ^ binary64.q ∧
+    (twoProd binary64 a b).2.toInt ≠ 0 ∧
+    maxMag binary64 >>> (splitBits binary64 + 1) < c.mag ∧ c.mag < 2 ^ (binary64.top - 1) ∧
+    binary64.q ≤ (size c.mag - 53) + (size d.mag - 53) ∧
+    8 * 2 ^ (size c.mag + size d.mag) ≤ maxMag binary64 * 2 ^ binary64.q ∧
+    ((twoProd binary64 c d).1.toInt + (twoProd binary64 c d).2.toInt) * 2 ^ binary64.q = c.toInt * d.toInt := by
+  decide
 
 /-! ### non-vacuity and finite anchors on the binary64 instance -/
 
